@@ -243,7 +243,8 @@ theorem renameSpace_ok (kw : List String) (st st' : St) (h : WF st) (p : Path) (
     (hop : st.renameSpace kw p new = .ok st') :
     ∃ parent old, p = parent ++ [old] ∧ p ∈ st.ids ∧ Names.isValidName kw new = true ∧
       st.canAdd parent new .space = true ∧
-      st' = { st.mapPaths (swapAt parent old new) with namers := st.namers.map (fun e => (relabel p new e.1, e.2)) } := by
+      st' = { st.mapPaths (swapAt parent old new) with namers := st.namers.map (fun e => (relabel p new e.1, e.2)) } ∧
+      ∀ x ∈ st.ids, relabel p new x = swapAt parent old new x := by
   unfold St.renameSpace at hop
   split at hop
   · cases hop
@@ -259,10 +260,11 @@ theorem renameSpace_ok (kw : List String) (st st' : St) (h : WF st) (p : Path) (
         obtain ⟨hp0, hhas⟩ := h1
         have hpid : p ∈ st.ids := (has_iff_mem_ids st p).mp hhas
         have hpe : p = p.dropLast ++ [p.getLast hp0] := (List.dropLast_concat_getLast hp0).symm
-        refine ⟨p.dropLast, p.getLast hp0, hpe, hpid, h2, h3, ?_⟩
-        rw [← hop]
         have hfree := (canAdd_space_free h p.dropLast new h3).1
         have hno := h.no_id_below (p.dropLast ++ [new]) (by simp) hfree
+        refine ⟨p.dropLast, p.getLast hp0, hpe, hpid, h2, h3, ?_,
+          fun x hx => relabel_eq_swapAt' p hp0 new x (hno _ hx)⟩
+        rw [← hop]
         apply mapPaths_congr
         intro s hs
         have hsid : s.id ∈ st.ids := List.mem_map.mpr ⟨s, hs, rfl⟩
@@ -286,7 +288,7 @@ where
 disjoint names) -/
 theorem inv_renameSpace (kw : List String) (st st' : St) (h : Inv st) (p : Path) (new : String)
     (hop : st.renameSpace kw p new = .ok st') : Inv st' := by
-  obtain ⟨parent, old, rfl, hpid, _, hca, rfl⟩ := renameSpace_ok kw st st' h.wf _ new hop
+  obtain ⟨parent, old, rfl, hpid, _, hca, rfl, _⟩ := renameSpace_ok kw st st' h.wf _ new hop
   apply inv_namers
   obtain ⟨hfree, hc, hr, hg⟩ := canAdd_space_free h.wf parent new hca
   apply inv_mapPaths _ st (swapAt_inj parent old new) (swapAt_nil parent old new)
@@ -309,5 +311,136 @@ theorem inv_renameSpace (kw : List String) (st st' : St) (h : Inv st) (p : Path)
       · subst h2; exact absurd hqn hfree
       · left; rw [hn']; simp [swapName, h1, h2]
   · left; rw [hn']; simp [hq]
+
+/-! ## valid names -/
+
+theorem mem_swapAt (parent : Path) (a b : String) (q : Path) (c : String) (hc : c ∈ swapAt parent a b q) :
+    c ∈ q ∨ c = a ∨ c = b := by
+  by_cases h : parent <+: q
+  · obtain ⟨d, rfl⟩ := h
+    rw [swapAt_append] at hc
+    cases d with
+    | nil => left; simpa [swapHead] using hc
+    | cons c0 r =>
+      simp only [swapHead, List.mem_append, List.mem_cons] at hc
+      rcases hc with hc | hc | hc
+      · left; simp [hc]
+      · unfold swapName at hc
+        split at hc
+        · right; right; exact hc
+        · split at hc
+          · right; left; exact hc
+          · left; simp [hc]
+      · left; simp [hc]
+  · rw [swapAt_of_not_prefix parent a b q h] at hc
+    exact Or.inl hc
+
+/-- **an accepted `rename_space` introduces only a valid name** -/
+theorem namesOK_renameSpace (kw : List String) (st st' : St) (h : Inv st) (hn : NamesOK kw st) (p : Path)
+    (new : String) (hop : st.renameSpace kw p new = .ok st') : NamesOK kw st' := by
+  obtain ⟨parent, old, rfl, hpid, hv, _, rfl, _⟩ := renameSpace_ok kw st st' h.wf _ new hop
+  refine ⟨?_, ?_, ?_⟩
+  · intro q' hq' c hc
+    obtain ⟨q, hq, rfl⟩ := (mem_ids_mapPaths (swapAt parent old new) st q').mp hq'
+    rcases mem_swapAt parent old new q c hc with e | e | e
+    · exact hn.ids q hq c e
+    · subst e; exact hn.ids _ hpid c (by simp)
+    · subst e; exact hv
+  · intro a q' n hd
+    have : (st.mapPaths (swapAt parent old new)).defd a q' n = st.defd a (swapAt parent old new q') n := by
+      have := defd_mapPaths (swapAt parent old new) st (swapAt_inj parent old new) a (swapAt parent old new q') n
+      rwa [swapAt_invol] at this
+    have hd' : ((st.mapPaths (swapAt parent old new)).defd a q' n).isSome = true := hd
+    rw [this] at hd'
+    exact hn.defs a _ n hd'
+  · exact hn.globals
+
+/-! ## derivation from scratch commutes with the renaming -/
+
+/-- **an accepted `rename_space` is the relabelling `ρ = relabel p new` of the whole structural state**:
+the spaces are the images of the spaces; the direct bases and the C3 linearisation of `ρ q` are the
+images of those of `q`; the member table and the definitions of `ρ q` are those of `q`. -/
+theorem renameSpace_commutes (kw : List String) (st st' : St) (h : Inv st) (p : Path) (new : String)
+    (hop : st.renameSpace kw p new = .ok st') :
+    st'.ids = st.ids.map (relabel p new) ∧ st'.globals = st.globals ∧
+    ∀ q ∈ st.ids,
+      st'.basesOf (relabel p new q) = (st.basesOf q).map (relabel p new) ∧
+      st'.mro (relabel p new q) = (st.mro q).map (List.map (relabel p new)) ∧
+      st'.tail (relabel p new q) = (st.tail q).map (relabel p new) ∧
+      ∀ a n, st'.mem a (relabel p new q) n = st.mem a q n ∧ st'.defd a (relabel p new q) n = st.defd a q n := by
+  obtain ⟨parent, old, hp, hpid, _, _, rfl, hag⟩ := renameSpace_ok kw st st' h.wf _ new hop
+  have hρ := swapAt_inj parent old new
+  have hmap : ∀ l : List Path, (∀ x ∈ l, x ∈ st.ids) → l.map (relabel p new) = l.map (swapAt parent old new) :=
+    fun l hl => List.map_congr_left (fun x hx => hag x (hl x hx))
+  refine ⟨?_, rfl, ?_⟩
+  · rw [hmap st.ids (fun _ hx => hx)]
+    exact ids_mapPaths _ st
+  · intro q hq
+    rw [hag q hq]
+    have htail : ∀ x ∈ st.tail q, x ∈ st.ids := fun x hx => h.wf.tail_mem_ids q x hx
+    refine ⟨?_, ?_, ?_, ?_⟩
+    · rw [hmap _ (fun b hb => h.wf.bases q b hb)]
+      exact basesOf_mapPaths _ st hρ q
+    · have : (st.mro q).map (List.map (relabel p new)) = (st.mro q).map (List.map (swapAt parent old new)) := by
+        rw [h.wf.mro_all q]
+        simp only [Option.map_some, List.map_cons, hag q hq, hmap _ htail]
+      rw [this]
+      have := mro_mapPaths _ st hρ q
+      exact this
+    · rw [hmap _ htail]
+      exact tail_mapPaths _ st hρ q
+    · intro a n
+      exact ⟨mem_mapPaths _ st hρ a q n, defd_mapPaths _ st hρ a q n⟩
+
+/-! ## histories with renames -/
+
+theorem applyR_renameSpace (kw : List String) (st : St) (p : Path) (new : String) :
+    st.applyR kw (.renameSpace p new) =
+      (match st.renameSpace kw p new with | .ok st' => some st' | .error _ => none) := rfl
+
+theorem invN_stepR (kw : List String) (st : St) (op : OpR) (h : InvN kw st) : InvN kw (st.stepR kw op).1 := by
+  cases op with
+  | op o =>
+    have : st.stepR kw (.op o) = st.step kw o := rfl
+    rw [this]
+    exact invN_step kw st o h
+  | renameSpace p new =>
+    unfold St.stepR
+    rw [applyR_renameSpace]
+    cases hop : st.renameSpace kw p new with
+    | error e => exact h
+    | ok st' => exact ⟨inv_renameSpace kw st st' h.toInv p new hop, namesOK_renameSpace kw st st' h.toInv h.names p new hop⟩
+
+theorem invN_runR (kw : List String) (ops : List OpR) : ∀ (st : St), InvN kw st → InvN kw (St.runR kw st ops) := by
+  induction ops with
+  | nil => intro st h; exact h
+  | cons op ops ih =>
+    intro st h
+    unfold St.runR
+    simp only [List.foldl_cons]
+    exact ih _ (invN_stepR kw st op h)
+
+/-- **every state reachable from the empty model by the twelve operations AND `rename_space` satisfies
+the invariant including the name clause** -/
+theorem runR_invN (kw : List String) (ops : List OpR) : InvN kw (St.runR kw {} ops) :=
+  invN_runR kw ops {} ⟨inv_empty, namesOK_empty kw⟩
+
+theorem runR_inv (kw : List String) (ops : List OpR) : Inv (St.runR kw {} ops) := (runR_invN kw ops).toInv
+
+/-- histories without renames are the histories of `St.run` -/
+theorem runR_map_op (kw : List String) (ops : List Op) : ∀ (st : St), St.runR kw st (ops.map .op) = St.run kw st ops := by
+  induction ops with
+  | nil => intro st; rfl
+  | cons o ops ih =>
+    intro st
+    unfold St.runR St.run
+    simp only [List.map_cons, List.foldl_cons]
+    exact ih _
+
+/-- a refused `rename_space` changes nothing (the step function keeps the state) -/
+theorem stepR_refused (kw : List String) (st : St) (p : Path) (new : String) (e : RenameErr)
+    (h : st.renameSpace kw p new = .error e) : st.stepR kw (.renameSpace p new) = (st, false) := by
+  unfold St.stepR
+  rw [applyR_renameSpace, h]
 
 end MxModel.SM
